@@ -283,6 +283,24 @@ class Path:
         return [s for s in self.events if callee_matches(s.term, pat)]
 
 
+def timeline(p):
+    """Conditions and call events of a path in execution order: [('ev', Site) | ('cond', var, labels)].
+    (Events are recorded at their call block, conditions at their switch block; the block sequence of the path orders them.)"""
+    cq, eq = {}, {}
+    for v, labs, bb in p.conds:
+        cq.setdefault(bb, []).append((v, labs))
+    for s in p.events:
+        eq.setdefault(s.bb, []).append(s)
+    out = []
+    for bb in p.blocks:
+        if eq.get(bb):
+            out.append(('ev', eq[bb].pop(0)))
+        if cq.get(bb):
+            v, labs = cq[bb].pop(0)
+            out.append(('cond', v, labs))
+    return out
+
+
 _PATH_FACTS = [None]
 _LOGLEVEL = re.compile(r'^cmp\((?:const\()?(?:log::)?Level::\w+(?:\(\))?\)?,(?:call:log::max_level(?:\(\))?|const\(log::STATIC_MAX_LEVEL\))\)$')
 _PANIC = re.compile(r'^(core|std)::(panicking::|rt::begin_panic|rt::panic_fmt|option::expect_failed|result::unwrap_failed|option::unwrap_failed)')
